@@ -66,12 +66,21 @@ THEOREMS = [
   p = major ++ n2be 4 (be2n (firstn 4 (skipn 4 p))) ++ skipn 8 p /\\
   (exists tail, skipn 8 p = concat brands ++ tail /\\ (length tail < 4)%nat) /\\
   length major = 4%nat /\\ Forall (fun b => length b = 4%nat) brands"""),
+    ("C04_toplevel", """forall (cfg : config) (lenient : bool) (inp : input) (fuel : nat) (o : out) (md : bytes) (pad : N),
+  ilen inp <= U64MAX -> (forall t, cumulative_mdat_box_size cfg = Some t -> t <= U32MAX) ->
+  mp4_sanitize cfg lenient U64MAX' inp fuel = Ok o -> o_metadata o = Some (md, pad) ->
+  exists bs f m mp' psz rs,
+    tiling (cumulative_mdat_box_size cfg) inp = Some bs /\\ the_ftyp bs = Some f /\\ last_moov bs = Some m /\\
+    metadata_shape (md_input md pad) = Some (tb_payload inp f, mp', psz) /\\
+    co_regions (tb_payload inp m) = Some rs /\\
+    blen mp' = blen (tb_payload inp m) /\\
+    masked_eq rs (tb_payload inp m) mp' = true"""),
 ]
 TRUSTED = fam.TRUSTED_COMMON
 ASSUMPTIONS = fam.ASSUMPTIONS_COMMON + [
-    "the theorems are stated for the ftyp and moov PAYLOADS as the model keeps them; that the returned metadata is new header ++ ftyp payload ++ new "
-    "header ++ put_nodes kids' (+ padding box) is the top-level assembly over Mp4/San.v finish (separate proof files); until it is in place the "
-    "whole-input statement of C04 is decided by the correspondence batch + the oracle only",
+    "payload-level theorems are stated for the ftyp and moov PAYLOADS as the model keeps them; C04_toplevel (Mp4/LoopProofsRewrite.v) supplies that "
+    "the returned metadata, read as boxes by Spec.metadata_shape, consists of exactly these payloads under new headers (+ padding box); it assumes "
+    "input length <= u64::MAX, the in-memory cursor (max_seek = 2^64-1), cumulative_mdat_box_size: u32",
     "the model keeps the ftyp payload as bytes where the code keeps the parsed FtypBox and re-serialises it; C04_ftyp_identical shows the parsed "
     "fields re-encode to the payload, the batch compares the emitted bytes",
 ]
@@ -81,15 +90,16 @@ RULE = ("moov trees with unknown siblings (udta, uuid-typed, empty free, a stray
         "mutations; thorough adds the 2^32-9 / 2^32-8 padding boundary. Oracle: ftyp payload of the returned metadata equals the input's; moov payload "
         "has the same length and equals the input's last moov payload outside the entry tables (independent Python walker for the mask + extracted "
         "Spec view of both). Non-trivial = at least 40 bytes present; distinct = distinct case line.")
-LEVEL_TEXT = ("Coq theorems (no axioms, all payloads, no bound) about the box-tree model for ONE moov payload: the tree kept for an accepted moov "
-              "serialises to the payload read (lazy parsing and the accessor forcings do not change a byte: C16 part c), and after a successful entry "
-              "rewrite the payload has the same length and is byte-identical outside the entry tables that the independent walker of Mp4/Spec.v finds "
-              "in the input payload (C04_moov_identical_outside_tables, Spec.masked_eq). For ftyp the parsed fields re-encode to the payload "
-              "(C04_ftyp_identical). The model is tied to the code by the differential batch on trees with unknown siblings at every level and all "
-              "child header forms; the oracle compares the implementation's returned payloads with the input's directly. NOT yet a theorem here: that "
-              "the returned metadata consists of exactly these payloads under new headers (top-level assembly over Mp4/San.v finish).")
-LEVEL_NOTE = ("Trusted: Coq kernel; the hand-written models (tied by the batch); Mp4/Spec.v co_regions/masked_eq as the meaning of `outside the "
-              "chunk-offset tables`; extraction and OCaml driver; the Rust harness; the small Python table walker used for masking. Payload-level "
-              "theorems only; see ASSUMPTIONS.")
+LEVEL_TEXT = ("Coq theorems, no axioms. TOP LEVEL (whole inputs, every configuration, strict and seek-style Skip, every fuel): C04_toplevel - if the "
+              "model returns metadata then, read as boxes by the specification (metadata_shape), its ftyp payload is the input's ftyp payload byte "
+              "for byte, and its moov payload has the length of the input's last moov payload and is byte-identical to it outside the entry tables "
+              "that the independent walker of Mp4/Spec.v finds in the input payload (Spec.masked_eq). PAYLOAD LEVEL: the tree kept for an accepted "
+              "moov serialises to the payload read (C16 part c), the rewrite touches only table entries (C04_moov_identical_outside_tables), the "
+              "parsed ftyp fields re-encode to the payload (C04_ftyp_identical). The model is tied to the code by the differential batch on trees with "
+              "unknown siblings at every level and all child header forms; the oracle compares the implementation's returned payloads with the "
+              "input's directly.")
+LEVEL_NOTE = ("Trusted: Coq kernel; the hand-written models (tied by the batch); Mp4/Spec.v co_regions/masked_eq/metadata_shape as the meaning of "
+              "`outside the chunk-offset tables` and of `the metadata read as boxes`; extraction and OCaml driver; the Rust harness; the small Python "
+              "table walker used for masking. Top-level assembly proved in Mp4/LoopProofsRewrite.v (input length <= u64::MAX, in-memory cursor).")
 TECHNIQUE = "Coq proof about a hand-written model + extracted-model/Rust differential check + extracted specification as oracle"
 DESIGN_REF = "DESIGN.md section 7 (C04)"
